@@ -13,11 +13,13 @@ import (
 	"time"
 
 	"github.com/prometheus/client_golang/prometheus"
+	"github.com/prometheus/common/model"
 	"google.golang.org/protobuf/types/known/timestamppb"
 	"pgregory.net/rapid"
 
 	"github.com/prometheus/alertmanager/eventrecorder"
 	"github.com/prometheus/alertmanager/featurecontrol"
+	"github.com/prometheus/alertmanager/marker"
 	"github.com/prometheus/alertmanager/matcher/compat"
 	"github.com/prometheus/alertmanager/silence"
 	pb "github.com/prometheus/alertmanager/silence/silencepb"
@@ -61,6 +63,17 @@ func execC12GCScale(sc c12gsScenario) (res pbt.Result) {
 			res.Fail("harness", "silence.New: %v", err)
 			return
 		}
+		// a peer that receives every update A broadcasts and never runs a GC itself (C09: same updates, same silences)
+		peer, err := silence.New(silence.Options{Retention: ret, Logger: nopLog, Metrics: prometheus.NewRegistry(), EventRecorder: eventrecorder.NopRecorder()})
+		if err != nil {
+			res.Fail("harness", "silence.New: %v", err)
+			return
+		}
+		s.SetBroadcast(func(b []byte) {
+			if err := peer.Merge(append([]byte(nil), b...)); err != nil {
+				res.Fail("harness", "peer.Merge: %v", err)
+			}
+		})
 		ctx := context.Background()
 		mk := func(val string, startIn, endIn time.Duration) (string, bool) {
 			now := time.Now()
@@ -86,7 +99,7 @@ func execC12GCScale(sc c12gsScenario) (res pbt.Result) {
 		}
 		far := 10 * time.Hour
 		type surv struct {
-			id, kind string
+			id, kind, val string
 		}
 		var survivors []surv
 		addSurvivors := func(before bool, round int) bool {
@@ -102,7 +115,7 @@ func execC12GCScale(sc c12gsScenario) (res pbt.Result) {
 				if !ok {
 					return false
 				}
-				survivors = append(survivors, surv{id, sv.Kind})
+				survivors = append(survivors, surv{id, sv.Kind, fmt.Sprintf("keep%d", i)})
 			}
 			return true
 		}
@@ -179,6 +192,55 @@ func execC12GCScale(sc c12gsScenario) (res pbt.Result) {
 					lost = append(lost, sv.kind+" (by id)")
 				}
 			}
+			// C02: an alert nobody asked about before is muted exactly by the active survivors
+			for i, sv := range sc.Survivors {
+				if round > 0 {
+					break
+				}
+				var id string
+				for _, x := range survivors {
+					if x.val == fmt.Sprintf("keep%d", i) {
+						id = x.id
+					}
+				}
+				if id == "" {
+					continue
+				}
+				lset := model.LabelSet{"a": model.LabelValue(fmt.Sprintf("keep%d", i)), "round": model.LabelValue(fmt.Sprint(round))}
+				want := sv.Kind == "active"
+				got := silence.NewSilencer(s, nopLog, eventrecorder.NopRecorder()).Mutes(marker.WithContext(ctx, marker.NewAlertMarker()), lset)
+				if got != want {
+					res.Add(pbt.V("mutes-wrong-after-gc", "round %d: after the GC that collected %d silences Mutes(%v)=%v, the stored %s silence %s says %v", round, len(burst), lset, got, sv.Kind, id, want).With("burst", sc.Burst))
+				}
+			}
+			// C09: the peer received the same updates; both hold the survivors with the same content, and a fresh
+			// instance fed A's full state gets them too
+			fresh, err := silence.New(silence.Options{Retention: ret, Logger: nopLog, Metrics: prometheus.NewRegistry(), EventRecorder: eventrecorder.NopRecorder()})
+			if err == nil {
+				if st, err := s.MarshalBinary(); err != nil {
+					res.Add(pbt.V("full-state-error", "MarshalBinary: %v", err))
+				} else if err := fresh.Merge(st); err != nil {
+					res.Add(pbt.V("full-state-error", "Merge of the full state: %v", err))
+				}
+			}
+			pl, _, _ := peer.Query(ctx)
+			peerHas := map[string]bool{}
+			for _, x := range pl {
+				peerHas[x.Id] = true
+			}
+			fl, _, _ := fresh.Query(ctx)
+			freshHas := map[string]bool{}
+			for _, x := range fl {
+				freshHas[x.Id] = true
+			}
+			for _, sv := range survivors {
+				if sv.kind == "expired" && round > 0 {
+					continue
+				}
+				if peerHas[sv.id] != l[sv.id] || freshHas[sv.id] != l[sv.id] {
+					res.Add(pbt.V("replicas-differ-after-gc", "round %d: the %s silence %s is listed by the instance that ran the GC: %v, by a peer that received the same updates: %v, by a fresh instance fed its full state: %v", round, sv.kind, sv.id, l[sv.id], peerHas[sv.id], freshHas[sv.id]).With("burst", sc.Burst))
+				}
+			}
 			if len(lost) > 0 {
 				sort.Strings(lost)
 				res.Add(pbt.V("live-silence-not-listed", "round %d: after the GC that collected %d silences, %d surviving silences %v (pending / active / expired inside the retention) are no longer listed", round, len(burst), len(lost), lost).With("burst", sc.Burst))
@@ -210,10 +272,44 @@ func execC12GCScale(sc c12gsScenario) (res pbt.Result) {
 	return res
 }
 
+func c12gsKeep(exec func(c12gsScenario) pbt.Result, kinds ...string) func(c12gsScenario) pbt.Result {
+	return func(sc c12gsScenario) pbt.Result {
+		res := exec(sc)
+		kept := res.Violations[:0]
+		for _, v := range res.Violations {
+			for _, k := range kinds {
+				if v.Kind == k {
+					kept = append(kept, v)
+				}
+			}
+		}
+		res.Violations = kept
+		return res
+	}
+}
+
+// C02GCScale / C09GCScale: the C12GCScale histories judged for "Mutes follows the stored silences" and for "instances
+// that received the same updates hold the same silences" after a GC that removes most of a large store.
+func TestC02GCScale(t *testing.T) {
+	pbt.Run(t, pbt.Spec[c12gsScenario]{
+		Property: "C02", Name: "C02GCScale",
+		Rule: "the histories of C12GCScale (a burst of 40-2200 short silences next to 1-5 long-lived ones, one GC removing the whole burst). Judged here: right after that GC a fresh Silencer asked about an alert it has never seen mutes it exactly when the stored long-lived silence for its label value is active (kinds mutes-wrong-after-gc, harness). Non-trivial: the burst has at least 300 silences.",
+		Gen:  genC12GCScale, Exec: c12gsKeep(execC12GCScale, "mutes-wrong-after-gc", "harness"),
+	})
+}
+
+func TestC09GCScale(t *testing.T) {
+	pbt.Run(t, pbt.Spec[c12gsScenario]{
+		Property: "C09", Name: "C09GCScale",
+		Rule: "the histories of C12GCScale with a peer that merges every update the first instance broadcasts and never collects. Judged here: after the first instance's GC removed the burst, every long-lived silence is listed alike by the instance, by the peer and by a fresh instance fed the instance's full state (kinds replicas-differ-after-gc, full-state-error, harness). Non-trivial: the burst has at least 300 silences.",
+		Gen:  genC12GCScale, Exec: c12gsKeep(execC12GCScale, "replicas-differ-after-gc", "full-state-error", "harness"),
+	})
+}
+
 func TestC12GCScale(t *testing.T) {
 	pbt.Run(t, pbt.Spec[c12gsScenario]{
 		Property: "C12", Name: "C12GCScale",
 		Rule: "one silence store in a bubble; 1-2 rounds of a burst of 40-2200 silences of 30/60 s created in one process life, with 1-5 long-lived silences (active, pending, or expired by hand 5 s before the burst leaves its retention) created before or after the burst; retention 60/600 s. A GC 5 s before the burst's end + retention must keep every silence listed; a GC 5 s after it must remove exactly the burst: every survivor is still listed and found by id; finally the hand-expired survivors are collected once past their own retention while pending and active ones stay. Non-trivial: the burst has at least 300 silences.",
-		Gen:  genC12GCScale, Exec: execC12GCScale,
+		Gen:  genC12GCScale, Exec: c12gsKeep(execC12GCScale, "retained-silence-not-listed", "expired-silence-not-collected", "live-silence-not-listed", "gc-error", "query-error", "harness"),
 	})
 }
